@@ -55,6 +55,16 @@ def boundsOf : List (Nat × Ty) → List Obl
   | [] => []
   | (x, t) :: ps => .bound x t :: boundsOf ps
 
+/-- every item of an array literal has the element type -/
+def relAll : List TExpr → Ty → List Obl
+  | [], _ => []
+  | t :: ts, el => .rel t.ty el :: relAll ts el
+
+/-- an array literal: its type is an array type and every item has the element type (the length is not stated) -/
+def arrObls (items : List TExpr) : Ty → List Obl
+  | .array _ el => relAll items el
+  | _ => [.bad]
+
 def binObls (op : BinOp) (l r ty : Ty) : List Obl :=
   if isArith op then [.rel l ty, .rel r ty]
   else if isLogic op then [.rel l .bool, .rel r .bool, .same ty .bool]
@@ -65,9 +75,9 @@ def obls : TExpr → List Obl
   | .lvar x ty => [.bound x ty]
   | .gvar n ty => [.inst n ty]
   | .err _ => [.bad]
-  -- method callees and array literals: modelled and tied, not yet given a declarative rule (counted as not covered)
+  -- method callees: modelled and tied, not yet given a declarative rule (counted as not covered)
   | .mvar _ _ _ => [.bad]
-  | .array items _ => oblsL items ++ [.bad]
+  | .array items ty => oblsL items ++ arrObls items ty
   -- a constructor application: its instantiated type agrees with `(argument types) -> type of the node`
   | .constr cty args ty => oblsL args ++ [if args.isEmpty then .rel cty ty else .rel cty (.func (tysOf args) ty)]
   | .prim _ => []
